@@ -1760,6 +1760,14 @@ def regression_objects(ctx):
     jset(o.t, "id", "")
     o.save()
     out.append(("regression/b116ae5 empty id", dst, (INVALID, INVALID)))
+    # 88a7bdc - head names the right number with another zero padding than the version names (E040)
+    dst = os.path.join(base, "head-padding")
+    shutil.copytree(os.path.join(vallib.FIX, "official-1.0", "warn", "W001_zero_padded_versions"), dst)
+    o = Obj(dst)
+    old = o.head
+    jset(o.t, "head", "v%d" % int(old[1:]))
+    vallib.write_inventory(dst, PLAIN.bytes(o.t), alg=o.alg, head=old)
+    out.append(("regression/88a7bdc head v3 with version names v001..v003", dst, (INVALID, INVALID)))
     # shape of seeded change C07-1 (E103 bound that never drops): spec versions v1..v3, root = 1.1, 1.0, 1.1, 1.1
     dst = os.path.join(base, "e103-down-up")
     shutil.copytree(os.path.join(off, "updates_three_versions_one_file"), dst)
